@@ -3,7 +3,7 @@
    M = Model/C02.v (ExpressionEvaluator over the tables generated from the source),
    S = Spec/C02.v (ISO C). *)
 From Coq Require Import ZArith Bool String List.
-From CBI Require Import Lib.Data Lib.Res Gen.C02_tables Model.C02 Spec.C02 Proofs.C02 Proofs.C02s Proofs.C02l Proofs.C02g.
+From CBI Require Import Lib.Data Lib.Res Gen.C02_tables Model.C02 Model.C02lex Spec.C02 Proofs.C02 Proofs.C02s Proofs.C02l Proofs.C02g Proofs.C02x.
 From CBI Require Model.C01 Spec.C01 Proofs.C01.
 Import ListNotations.
 Local Open Scope string_scope.
@@ -186,6 +186,26 @@ Theorem C02_evaluate_for_platform_partial :
 Proof. exact evaluate_for_platform_ok. Qed.
 Print Assumptions C02_evaluate_for_platform_partial.
 
+(* The lexer (UNBOUNDED): for every tree whose constants ISO C accepts ([static e] defined) and whose
+   identifiers are identifiers, the model of Lexer.tokenize (number with exponents, character
+   constants with escapes, identifiers, maximal-munch operators and punctuators over the lists
+   generated from the source, whitespace) run on the text of e - token spellings separated by single
+   blanks, character constants between quotes - returns exactly the token sequence of e. *)
+Theorem C02_lexer_tokens :
+  forall need e u, static e = Some u -> names_ok e = true ->
+    tokenize (join (tokens dt_source need e)) = Some (tokens dt_source need e).
+Proof. exact lex_tokens. Qed.
+Print Assumptions C02_lexer_tokens.
+
+(* From the TEXT of the directive to ISO C's value, PARTIAL (same guard as above):
+   Lexer.tokenize -> MacroExpander.expand (defined) -> ExpressionEvaluator.evaluate. *)
+Theorem C02_text_to_value_partial :
+  forall env e v, names_ok e = true -> ids_ok env e = true -> guard e = true ->
+    sem (map fst env) e = Some v ->
+    evaluate_text env (join (tokens dt_source 0 e)) = OVal v.
+Proof. exact text_to_value. Qed.
+Print Assumptions C02_text_to_value_partial.
+
 (* non-vacuity: 2 + 3 * 4 - 1 is 13, and -7 / 2 is -3 *)
 Example C02_nonvacuous :
   evaluate [num "2"; bop BAdd; num "3"; bop BMul; num "0x4uLL"; bop BSub; num "01"] = OVal (V 13 true) /\
@@ -204,5 +224,9 @@ Example C02_nonvacuous_unbounded :
   sem ["A"] C02_example = Some (V 1 false) /\
   guard C02_example = true /\ ids_ok [("A", [])] C02_example = true /\
   evaluate_for_platform [("A", [])] (tokens dt_source 0 C02_example) = OVal (V 1 false) /\
-  List.length (tokens dt_source 0 C02_example) = 25%nat.
+  List.length (tokens dt_source 0 C02_example) = 25%nat /\
+  names_ok C02_example = true /\
+  string_of_list (join (tokens dt_source 0 C02_example)) =
+    "( defined ( A ) && - 1 < 0u ) || 010 / ( 1 ? 2 : 1 / 0 ) == 4" /\
+  evaluate_text [("A", [])] (list_of_string "( defined ( A ) && - 1 < 0u ) || 010 / ( 1 ? 2 : 1 / 0 ) == 4") = OVal (V 1 false).
 Proof. vm_compute. repeat split; reflexivity. Qed.
